@@ -108,6 +108,9 @@ def programs(tier: str):
         for d in (1, 3):
             for use_derived_first in (False, True):
                 yield {"stacked": derived, "d": d, "use_derived_first": use_derived_first}
+    for n in (5, 9, 17, 33, 40, 70) if tier == "quick" else (5, 9, 17, 33, 34, 40, 65, 70, 100):
+        for pattern in ("one-long", "all-long", "alternating", "last-long"):
+            yield {"many": n, "pattern": pattern}
     # two overlapping calls through one wrapped function, each with its own deadline
     for da in (1, 3):
         for db in (1, 3):
@@ -117,6 +120,62 @@ def programs(tier: str):
 
 def explore_config(tier: str, program) -> dict:
     return {}
+
+
+def _many(program, ch: Chooser) -> Result:
+    """MANY calls through ONE wrapper object (5..70), started 1/64 apart: every call keeps its own
+    deadline and its own outcome, however many other calls the wrapper is serving"""
+    n, pattern = program["many"], program["pattern"]
+    w = World(ch)
+    viols: list[dict] = []
+    try:
+
+        @timeout(T)
+        async def fn(i, d):
+            await asyncio.sleep(d)
+            return i
+
+        out: dict = {}
+
+        def dur(i: int) -> float:
+            if pattern == "one-long":
+                return 3.0 if i == 0 else 1 / 128
+            if pattern == "all-long":
+                return 3.0 + i / 64
+            if pattern == "alternating":
+                return 3.0 if i % 2 == 0 else 1 / 128
+            return 3.0 if i == n - 1 else 0.5 + 1 / 128  # last-long (no two timers share an instant)
+
+        async def caller(i):
+            t0 = now()
+            try:
+                out[i] = ("value", await fn(i, dur(i)), now() - t0)
+            except TimeoutError:
+                out[i] = ("timeout", None, now() - t0)
+            except BaseException as exc:  # noqa: BLE001
+                out[i] = ("other", type(exc).__name__, now() - t0)
+
+        tasks: dict = {}
+        for i in range(n):
+            w.loop.call_at(START + i / 64, lambda i=i: tasks.__setitem__(i, w.task(caller(i), name=f"c{i}")))
+        hang = False
+        try:
+            w.run()
+        except Livelock:
+            hang = True
+        for i in range(n):
+            d = dur(i)
+            want = ("value", i, d) if d < T else ("timeout", None, T)
+            t = tasks.get(i)
+            if hang or t is None or not t.done():
+                viols.append(viol("termination", f"many-calls/{pattern}/call-hangs", "every call terminates", {"call": i, "of": n, "finished": len(out)}))
+                break
+            if out.get(i) != want:
+                viols.append(viol("outcome", f"many-calls/{pattern}", list(want), list(out.get(i, ())), call=i, of=n))
+                break
+        return Result(f"many/{pattern}/{n}", True, viols, {"n": n, "pattern": pattern, "finished": len(out)})
+    finally:
+        w.close()
 
 
 def _pair(program, ch: Chooser) -> Result:
@@ -229,6 +288,8 @@ def _sequential(program, ch: Chooser) -> Result:
 def execute(program, ch: Chooser) -> Result:  # noqa: C901, PLR0912, PLR0915
     if "pair" in program:
         return _pair(program, ch)
+    if "many" in program:
+        return _many(program, ch)
     if "loops" in program or "stacked" in program:
         return _sequential(program, ch)
     d, kind, tc, batch = program["d"], program["kind"], program["tc"], program["batch"]
